@@ -195,7 +195,7 @@ def c16_case(tdir, d, k, b):
     if rc1 == 0 and os.path.exists(big):
         rc2, _, err2 = run_tool(tdir, cfg["invoke"], "bigwigtobedgraph" if kind == "bw" else "bigbedtobed", a2, trace=tr2)
     # which internal paths actually ran (hook points `path.*` recorded through BIGTOOLS_VERIF_TRACE)
-    events = [] if k % 40 == 0 else None     # every fortieth forward conversion: all hook events, for trace validation against Pipeline.tla
+    events = [] if k % int(os.environ.get("C16_TRACE_EVERY", "40")) == 0 else None     # every fortieth forward conversion: all hook events, for trace validation against Pipeline.tla
     ev = path_events(tr1, events) | path_events(tr2)
     seen_path = {"source": sorted(x[len("path.source."):] for x in ev if x.startswith("path.source.")),
                  "passes": 1 if "path.pass.single" in ev else (2 if {"path.pass.first", "path.pass.zoom"} <= ev else 0),
